@@ -7,7 +7,7 @@ PID=$1; K=$2
 SRC=${SEEDBASE:-/tmp/seed}/$PID/_seed/$K
 WT=/tmp/seedchk_$PID$K
 rm -rf $WT; git -C /repo worktree prune
-git -C /repo worktree add -q --detach $WT HEAD || exit 9
+git -C /repo worktree add -q --detach $WT ${BASE:-HEAD} || exit 9
 cd $WT
 PYTHONPATH=$WT timeout 600 /venv/bin/python $SRC/demo.py > $WT.out 2>&1; C0=$?
 git apply $SRC/patch.diff; A=$?
